@@ -288,10 +288,16 @@ def oracle_session(seed, index, n_bursts=None):
                 maker = g.hostile_burst
             msgs = maker()
             for kind, m in msgs:
-                if kind == "v" and type(m) is tuple and len(m) == 3 and type(m[0]) is int and m[0] == 1:
-                    key = repr(m[1])
+                if kind != "v":
+                    continue
+                try:
+                    from rpyc.core import brine
+                    msg, seq, raw = brine.load(brine.dump(m))    # as `_dispatch` unpacks it (any 3-iterable)
+                except Exception:  # noqa
+                    continue
+                if msg == 1:
+                    key = repr(seq)
                     n_requests[key] = n_requests.get(key, 0) + 1
-                    raw = m[2]
                     if type(raw) is tuple and len(raw) == 2:
                         for idp in _local_refs(raw[1]):
                             try:
